@@ -186,6 +186,20 @@ func envelopeBuffer(c *Ctx, r *Report, rule string) {
 					default:
 						continue
 					}
+					if constLen == 2 {
+						// the two-octet length prefix read by hand (io.ReadFull + binary.BigEndian.Uint16): not an envelope
+						isPrefix := false
+						allInstrs(f, func(x ssa.Instruction) {
+							if c2, ok := x.(*ssa.Call); ok && strings.HasSuffix(calleeNameSSA(&c2.Call), "bigEndian).Uint16") && len(c2.Call.Args) > 0 {
+								if sliceOf(c2.Call.Args[len(c2.Call.Args)-1])[o] {
+									isPrefix = true
+								}
+							}
+						})
+						if isPrefix {
+							continue
+						}
+					}
 					n++
 					if constLen >= max {
 						continue
